@@ -140,7 +140,8 @@ def check(run, rule, vals):
         sep = p_sep or "'.'"
         off = paths.text(_canon(ast.parse(f"int({num}) - {lo}", mode="eval").body))
         off2 = paths.text(_canon(ast.parse(f"{num} - {lo}", mode="eval").body))
-        members = [f"{p_type}(value={num}, name=f'{{{p_base}}}{{{sep}}}{{{o}:0{{{nib}}}x}}')" for o in (off, off2)]
+        # (the member's value is the number looked up - as given, or as a plain int: the same number)
+        members = [f"{p_type}(value={v_}, name=f'{{{p_base}}}{{{sep}}}{{{o}:0{{{nib}}}x}}')" for o in (off, off2) for v_ in (num, f"int({num})")]
         A, polA = SB.atom(_canon(ast.parse(f"{num} < {lo}", mode="eval").body))
         B, polB = SB.atom(_canon(ast.parse(f"{num} < {hi}", mode="eval").body))
         for p in bps:
